@@ -420,6 +420,10 @@ func exhaustiveC02(thorough bool, emit func(C02Case) bool) {
 	}
 }
 
-func TestC02(t *testing.T) {
-	Run(t, Prop[C02Case]{ID: "C02", Gen: genC02, Exhaustive: exhaustiveC02, Check: checkC02})
+func propC02() Prop[C02Case] {
+	return Prop[C02Case]{ID: "C02", Gen: genC02, Exhaustive: exhaustiveC02, Check: checkC02}
 }
+
+func TestC02(t *testing.T) { Run(t, propC02()) }
+
+func FuzzGenC02(f *testing.F) { RunFuzz(f, propC02()) }
